@@ -45,6 +45,7 @@ type Thread struct {
 	currentCont Cont  // Currently running continuation
 	resumeCh    chan valuesError
 	caller      *Thread // Who resumed this thread
+	closing     bool    // The thread is being closed (see Close): it can no longer yield
 
 	// Depth of GoFunction calls in the thread.  This should not exceed
 	// maxGoFunctionCallDepth.  The aim is to avoid Go stack overflows that
@@ -241,6 +242,7 @@ func (t *Thread) Close(caller *Thread) (bool, error) {
 	// becoming dead.
 	t.caller = caller
 	t.status = ThreadOK
+	t.closing = true
 	t.mux.Unlock()
 	verifSched(verifEvAfterUnlock, t)
 	caller.mux.Unlock()
@@ -263,6 +265,14 @@ func (t *Thread) Yield(args []Value) ([]Value, error) {
 		t.mux.Unlock()
 		verifSched(verifEvAfterUnlock, t)
 		return nil, errors.New("cannot yield from main thread")
+	}
+	if t.closing {
+		// Only the __close handlers of the pending values still run: if one of
+		// them could yield, coroutine.close would return to its caller with
+		// values still pending and the coroutine suspended again.
+		t.mux.Unlock()
+		verifSched(verifEvAfterUnlock, t)
+		return nil, errors.New("cannot yield from a coroutine that is being closed")
 	}
 	verifSched(verifEvBeforeLock, caller)
 	caller.mux.Lock()
